@@ -339,6 +339,22 @@ def main():
                 cfg = (1, rng.choice([0, 1, 2]), 1, True)
                 res, st = add_file_case(em, p, data, sched, cfg, len(items) + 12, "random multi-fault schedule")
                 check_C01(em, data, res, cfg, "random faults")
+        # direct only: frames whose reserved header bits are set but which are CRC-consistent under a 16-bit reading of the
+        # length field (what a relaxed header test would accept) must never be returned
+        good = gen.frame(valid_payloads(tabs, rng, 1)[0])
+        for bit in range(2, 8):
+            for low in (0, 1):
+                b2 = (1 << bit) | low
+                ln = (b2 << 8) | rng.randrange(0, 256)
+                body = bytes([0x3e, 0xd0]) + bytes(rng.getrandbits(8) for _ in range(ln - 2))
+                hdr = bytes([0xD3, b2, ln & 255])
+                crafted = hdr + body + gen.crc24q_ref(hdr + body).to_bytes(3, "big")
+                data = gen.noise(rng, 5) + good + crafted + good
+                for q in (0, 1):
+                    cfg = (1, q, 1, True)
+                    res, _ = run_reader(p, FStream(data), cfg, 8)
+                    check_C01(em, data, res, cfg, "CRC-consistent frame with reserved header bit %d set" % bit)
+                    em.count("crafted.reservedbit")
         em.samples = [{"stream_items": "hostile mix: frames, damaged, reserved-bit headers, NMEA, UBX, sync-dense noise, truncated tail", "faults": "none / single at every call / random"}]
 
     elif prop == "C02":
